@@ -20,6 +20,8 @@ type tagField struct {
 	Val  string `json:"val"`
 	Kind string `json:"kind"`
 	Emb  bool   `json:"emb"`
+	// EOmit: the embedded struct this field belongs to carries ce:"omit" itself
+	EOmit bool `json:"eomit"`
 }
 type tagName struct{ Go, Snake, Ident string }
 type tagCase struct {
@@ -37,6 +39,7 @@ var goNames = func() []string {
 	for i := 1; i <= 14; i++ {
 		n = append(n, fmt.Sprintf("W%02d", i))
 	}
+	n = append(n, "Ärger")
 	return n
 }()
 
@@ -104,7 +107,11 @@ func buildTagStruct(fields []tagField) (reflect.Type, [][]int) {
 			}
 			// reflect cannot create a named type; an embedded field needs one, so the anonymous
 			// struct is wrapped: embedding is by field flag, the name is the field's name
-			sf = append(sf, reflect.StructField{Name: "Embedded", Type: reflect.StructOf(inner), Anonymous: true})
+			var etag reflect.StructTag
+			if fields[i].EOmit {
+				etag = `ce:"omit"`
+			}
+			sf = append(sf, reflect.StructField{Name: "Embedded", Type: reflect.StructOf(inner), Anonymous: true, Tag: etag})
 		}
 		i = j
 	}
@@ -183,6 +190,8 @@ func checkC21(c *Check) {
 	res := mustTLC(TLCRun{Module: "GoTagsGen", Cfg: "INIT Init\nNEXT Next\nINVARIANT NoDupKeys\nINVARIANT Emit\nCHECK_DEADLOCK FALSE\n", Extra: map[string]string{"VerifParams.tla": params}, Workers: 4, Timeout: 10 * time.Minute,
 		OnLine: func(p string) {
 			var tc tagCase
+			// the placeholders of the name with letters beyond ASCII
+			p = strings.NewReplacer("XUNIgo", "Ärger", "XUNIsnake", "ärger", "XUNIident", "ärger").Replace(p)
 			if err := json.Unmarshal([]byte(p), &tc); err != nil {
 				machineryFail("GoTagsGen: %v", err)
 			}
